@@ -145,8 +145,9 @@ def _lib_acosinput(R):
 
 def near_pi_region(case, message):
     """Open known finding C01-near-pi-log: the GENERIC branch of the logarithm (theta/(2 sin theta)
-    formula) within 2e-5 of a half turn.  Inputs that select the exact-half-turn branch
-    ((trace-1)/2 <= -1 on the matrix handed in) are NOT in the region: that branch must be right."""
+    formula) within 2e-5 of a half turn, and matrices that are not quite half turns (not symmetric) but whose trace rounds
+    to -1.  EXACT half turns (symmetric matrices selecting the exact-half-turn branch, (trace-1)/2 <= -1 evaluated as
+    the library does) are NOT in the region: that branch must be right for them."""
     for key in ("w", "V"):
         if key in case:
             th = float(np.linalg.norm(np.asarray(case[key])[:3]))
@@ -155,7 +156,10 @@ def near_pi_region(case, message):
     if "T" in case:
         R = np.asarray(case["T"])[:3, :3]
         th = O.angle(R)
-        if math.pi - th < 2e-5 and _lib_acosinput(R) > -1:
+        if math.pi - th < 2e-5 and (_lib_acosinput(R) > -1 or not np.array_equal(R, R.T)):
+            # (second disjunct: a rotation by pi - 1e-8 or so whose trace ROUNDS to -1 is sent through the exact-half-turn
+            # branch, which reads the axis off one column and ignores the skew part: off by (pi - angle) / (2 n_pivot),
+            # 5.1e-6 for an axis component of 2e-3.  Exact half turns - symmetric matrices - stay enforced.)
             return "near_pi_log"
     return None
 
